@@ -34,9 +34,14 @@ class Env:
     def kindflow(self) -> KindFlow:
         return build_kindflow(self.repo, self.schema, self.grammar)
 
+    def func_q(self, modname: str, name: str) -> str:
+        """The name the interpreter knows a module-level function by: that of the module defining it (re-exports followed)"""
+        mf = self.repo.function(modname, name)
+        return f"{mf[0].name}.{mf[1].name}" if mf else f"{modname}.{name}"
+
     def interp(self, image: bool = True, **kw) -> Interp:
         it = Interp(self.repo, self.schema, self.kindflow.kinds if image else None, **kw)
-        it.summarise_funcs = {"odata_query.typing.infer_type"}
+        it.summarise_funcs = {self.func_q("odata_query.typing", "infer_type")}
         it.run_exc_ctors = True  # building a library exception runs its constructor (with the values actually passed)
         it.entry_through_decorators = True  # an explored function is what its callers get: the decorated one
         return it
